@@ -392,6 +392,27 @@ def r6_monomials(ctx):
             continue
         v = p.value
         v = Q.unseq(v)
+        direct = Q.unseq(v)
+        if direct[0] == "comp" and direct[2][0] == "star" and direct[2][1][0] == "comp" and not (v[0] == "call"):
+            # the documented order generated directly: for total = 0..degree (outer), for j = 0..total (inner): (total - j, j)
+            # - grouped by total degree, ties by ascending power of northing - which is what the stable sort by sum of the j-major triangle gives
+            outer_it, lo, inner = direct[3], direct[4], direct[2][1]
+            inner_it, li, elt = inner[3], inner[4], inner[2]
+            full = ("call", ("glob", "builtins.range"), (("binop", "+", deg, const(1)),), (), 0)
+            T = ("elem", outer_it, lo)
+            tri = ("call", ("glob", "builtins.range"), (("binop", "+", T, const(1)),), (), 0)
+            J = ("elem", inner_it, li)
+            okd = None
+            if canon(outer_it) == canon(full) and canon(inner_it) == canon(tri):
+                if elt == ("tuple", (("binop", "-", T, J), J)):
+                    okd = True
+                elif elt == ("tuple", (J, ("binop", "-", T, J))):
+                    okd = False
+            ctx.check("R6", qn + "|sorted-by-degree", okd, "pairs are generated by total degree: (total - j, j) for total = 0..degree, j = 0..total", fn=qn,
+                      bad="pairs are generated as (j, total - j): ties within a degree come out in the opposite of the documented order")
+            ctx.check("R6", qn + "|triangle-and-tie-order", okd, "pairs (i, j) with i + j = total <= degree, ties by ascending power of northing", fn=qn,
+                      bad="ties within a degree are ordered by descending power of northing")
+            continue
         if not (v[0] == "call" and callee(v) == "builtins.sorted" and len(v[2]) == 1):
             ctx.add("R6", qn + "|sorted-by-degree", "UNDECIDED", "the result is not sorted(...): %s" % show(v)[:80], fn=qn)
             continue
